@@ -226,7 +226,7 @@ def role_of(key: str, reach_lists: set, reach_mans: set) -> str:
 
 
 # ------------------------------------------------------------------------------------------ base tables
-ADOPTED_SUBDIR_KEYS = ["data/p1/x.parquet", "data/p2/x.parquet"]
+ADOPTED_SUBDIR_KEYS = ["data/p1/x.parquet", "data/p2/deep/y.parquet"]
 
 
 def build_base(base: str, spec: Dict[str, Any]) -> Tuple[str, float]:
@@ -269,7 +269,7 @@ def build_base(base: str, spec: Dict[str, Any]) -> Tuple[str, float]:
         # the transaction object is dropped: its marker and data file stay (a live writer in another process)
     if spec.get("adopt_subdirs"):
         # a live transaction that has ADOPTED pre-built files (Transaction.append_files: any canonical path below data/, so also
-        # files in sub-directories that share their basename) and has not committed yet: nothing but its markers protects them
+        # files in sub-directories,) and has not committed yet: nothing but its markers protects them
         import glob
         from datashard.data_structures import DataFile, FileFormat
         src = sorted(glob.glob(os.path.join(root, "data", "*.parquet")))[0]
